@@ -175,6 +175,8 @@ def main(chk):
                 if exp_a != got_a:
                     report(kind, {"spine": j + 1, "expected": [tuple(map(str, x)) for x in exp_a], "got": [tuple(map(str, x)) for x in got_a]})
     chk.part("kern_documents", n=ndoc, **feats)
+    if docs and 1 in den:
+        chk.sample({"kern_document": ctx[1][0].split("\n")[:12], "denoted_notes": den[1]["sounding"][:3], "barlines": den[1]["bars"][:3]})
     # ================= MEI
     mdocs, mctx = [], {}
     for cid in range(1, ndoc + 1):
@@ -287,6 +289,8 @@ def main(chk):
             if exp_cl != got_cl:
                 report("clef", {"part": p.id, "expected": [tuple(map(str, x)) for x in exp_cl], "got": [tuple(map(str, x)) for x in got_cl]})
     chk.part("mei_documents", n=ndoc, **mfeats)
+    if mdocs and 1 in den:
+        chk.sample({"mei_events": mdocs[0]["events"][:6], "denoted_notes": den[1]["sounding"][:3], "measures": den[1]["measures"][:3]})
     # ================= export then import
     from partitura.io.exportkern import save_kern
     from partitura.io.exportmei import save_mei
